@@ -176,6 +176,28 @@ def confirm_replay(binp, replay_path, kind, unit, times=3):
     return n == times
 
 
+def run_history(binp, args, workdir, tag):
+    """Re-runs one shard with exactly the arguments it had; returns the set of (prop, kind) it reports."""
+    out = os.path.join(workdir, 'hist-%s.json' % tag); a = list(args)
+    for i, x in enumerate(a):
+        if x == '--out': a[i + 1] = out
+        if x == '--crumb': a[i + 1] = out + '.crumb'
+    rc, so, se, _ = run_proc([binp] + a, 1800)
+    kinds = set()
+    try:
+        with open(out) as fo: st = json.load(fo)
+        for pname, ps in st['props'].items():
+            for ff in ps['failures']: kinds.add((pname, ff.get('kind')))
+    except Exception: pass
+    return kinds
+
+
+def confirm_history(binp, f, workdir, times=2):
+    for i in range(times):
+        if (f.get('prop'), f.get('kind')) not in run_history(binp, f['shard_cmd'], workdir, '%d-%d' % (os.getpid(), i)): return False
+    return True
+
+
 def write_replay(prop, unit, f, tag):
     d = os.path.join(os.environ.get('VERIF_FOUND_DIR', os.path.join(VERIF, 'found')), prop); os.makedirs(d, exist_ok=True)
     body = dict(property=prop, unit=unit['name'], prop=f.get('prop'), kind=f.get('kind'), detail=f.get('detail', '')[:2000], desc=f.get('desc', '')[:2000], expect='pass')
@@ -183,6 +205,7 @@ def write_replay(prop, unit, f, tag):
     if 'sweep' in f: body['sweep'] = f['sweep']
     if 'file' in f: body['file'] = f['file']
     if 'input_hex' in f: body['input_hex'] = f['input_hex']
+    if 'history_args' in f: body['history_args'] = f['history_args']
     hid = hashlib.sha256(json.dumps(body, sort_keys=True).encode()).hexdigest()[:10]
     p = os.path.join(d, '%s-%s.json' % (tag, hid))
     with open(p, 'w') as fo: json.dump(body, fo, indent=1)
@@ -236,6 +259,12 @@ def check_property(pid, tier, seed, replay_only=None):
         if f.get('confirmed') or confirm_replay(bins[unit['name']], tmp, f.get('kind'), unit, times=1 if 'sweep' in f else 3):
             p = write_replay(pid, unit, f, 'new')
             violations.append((p, f))
+        elif 'shard_cmd' in f and confirm_history(bins[unit['name']], f, workdir, times=2):
+            # the case alone passes, but it fails again whenever the cases before it in its shard have run: state leaks between operations
+            f = dict(f); f['history_args'] = [a for a in f['shard_cmd']]
+            f['desc'] = 'STATE-DEPENDENT (fails only after the preceding cases of its shard; the replay re-runs the shard): ' + f.get('desc', '')
+            p = write_replay(pid, unit, f, 'new')
+            violations.append((p, f))
         else:
             notes.append('unconfirmed failure (did not reproduce 3/3 in fresh processes): %s %s' % (f.get('kind'), f.get('desc', '')[:200]))
 
@@ -249,6 +278,18 @@ def check_property(pid, tier, seed, replay_only=None):
             log('bad replay file %s: %s' % (rf, e)); return 2
         u = unit_by_name.get(body.get('unit'))
         if u is None: log('replay file %s names unknown unit %s' % (rf, body.get('unit'))); continue
+        if body.get('history_args'):
+            kinds = run_history(bins[u['name']], body['history_args'], workdir, 'replay-%d' % replayed)
+            replayed += 1; failed = (body.get('prop'), body.get('kind')) in kinds
+            exp = body.get('expect', 'pass')
+            if replay_only is not None: print('replay %s (shard with history): %s' % (rf, 'FAIL' if failed else 'pass'))
+            if failed:
+                if exp.startswith('known:'):
+                    kid = exp.split(':', 1)[1]
+                    k = next((k for k in known if k['id'] == kid and k.get('status') == 'known'), None)
+                    if k is not None: known_hit.setdefault(kid, k); continue
+                violations.append((rf, dict(kind=body.get('kind', 'replay'), desc=body.get('desc', ''), detail='')))
+            continue
         if is_fuzz(u):
             tmpin = os.path.join(workdir, 'replay-input-%d' % replayed)
             with open(tmpin, 'wb') as fo: fo.write(bytes.fromhex(body.get('input_hex', '')))
@@ -369,7 +410,7 @@ def check_property(pid, tier, seed, replay_only=None):
             for s in ps['samples']:
                 if len([x for x in samples if x.startswith(pname + ': ')]) < 3: samples.append('%s: %s' % (pname, s))
             for f in ps['failures']:
-                f = dict(f); f['prop'] = pname
+                f = dict(f); f['prop'] = pname; f['shard_cmd'] = cmd[1:]
                 report_failure(u, f)
     for uname, hf in hash_files.items():
         total_distinct += union_hashes(hf)
